@@ -499,12 +499,17 @@ class Run:
         files = []
         for li, fd in enumerate(wd["files"], 1):
             data = b"" if fd["tail"] == "missing" else build_image(fd, li, rng, bool(sc.get("rich")))
+            tail = fd["tail"]
             if fd.get("cutat") is not None:
+                from vf import flowgen
+
                 data = data[: int(fd["cutat"] * len(data))]
+                if flowgen.ref_records(data)[1] == len(data):
+                    tail = "clean"   # the cut fell on a record boundary: an intact, shorter file
             self.images.append(data)
             flows, ids, stored, targets = describe_image(data, fd, wd["filt"])
             self.ids[li], self.stored[li], self.targets[li] = ids, stored, targets
-            files.append({"flows": flows, "tail": fd["tail"], "via": fd["via"]})
+            files.append({"flows": flows, "tail": tail, "via": fd["via"]})
         self.world = {"mode": wd["mode"], "filt": bool(wd["filt"]), "files": files}
         self.trace.append({"k": "world", **self.world})
 
@@ -571,7 +576,7 @@ class Check(core.PropertyCheck):
         "stored flows are ones a proxy can store: a WebSocket flow has its 101 response; flow ids are unique per run",
         "the addon (policy) sets a response only in requestheaders/request/dns_request and an error only in "
         "request-side hooks (requestheaders, request, dns_request, tcp/udp start and message); it never edits the "
-        "message list; the filter is `~comment ^keep` (the filter language itself is C40's subject)",
+        "message list; the filter is a spelling of `~comment ^keep` (the filter language itself is C42's subject)",
         "handlers are either synchronous or suspend until the scenario releases them; nothing else runs on the loop",
     )
 
